@@ -552,6 +552,30 @@ def crash_process(s, tag, sig=9):
         me.state = _sched.FINISHED
 
 
+def sim_wait(object_list, timeout=None):
+    """multiprocessing.connection.wait for process sentinels and simulated connections"""
+    s, me = _sched._ctx()
+    w = world()
+
+    def ready():
+        out = []
+        for o in object_list:
+            if isinstance(o, int):
+                p = next((p for p in w.procs.values() if p.sentinel == o), None)
+                if p is None or p.returncode is not None:
+                    out.append(o)
+            elif isinstance(o, SimConnection):
+                if o.core.buf or o.core.writers == 0:
+                    out.append(o)
+        return out
+
+    r = ready()
+    if r or s is None:
+        return r
+    s.block(lambda: bool(ready()), timeout, on='connection.wait')
+    return ready()
+
+
 def current_process():
     s = S()
     if s is not None:
@@ -623,5 +647,6 @@ def install():
     multiprocessing.context.BaseContext.current_process = staticmethod(current_process)
     for m in (_server, _servlet, _worker):
         m._SimpleProcessQueue = SimSimpleProcQ
+    multiprocessing.connection.wait = sim_wait
     _orig_flush = multiprocessing.util._flush_std_streams
     multiprocessing.util._flush_std_streams = lambda: None
